@@ -319,11 +319,12 @@ func pixelClass(info string) string {
 }
 
 type vp8lRun struct {
-	rep    *Report
-	mins   map[string]vp8lMin
-	phase  map[string]float64   // wall seconds per phase
-	kept   map[string][]Finding // per property|signature: the 5 findings with the shortest inputs
-	totals map[string]int
+	stopped bool // a Go decode hung: finish up and return the report
+	rep     *Report
+	mins    map[string]vp8lMin
+	phase   map[string]float64   // wall seconds per phase
+	kept    map[string][]Finding // per property|signature: the 5 findings with the shortest inputs
+	totals  map[string]int
 }
 
 // add keeps, per signature, the five findings with the shortest input (Report.Add keeps the first five).
@@ -364,9 +365,40 @@ func (v *vp8lRun) batch(all []vp8lCase, infoAll bool) error {
 	goOut := make([]string, len(all))
 	goPanic := make([]string, len(all))
 	parallelDo(len(all), func(i int) {
-		goOut[i], goPanic[i] = guard(func() string { return goVP8L(all[i].payload) })
+		goOut[i], goPanic[i] = guardT(func() string { return goVP8L(all[i].payload) })
 	})
 	v.phase["go-decode"] += time.Since(t0).Seconds()
+	if hangSeen.Load() {
+		// a decode did not return: file it as C05 (hang) and, when the specification decodes the same
+		// bytes, as C03 (a valid stream that never decodes), then let the suite finish up - the
+		// spinning goroutine cannot be recovered
+		var hl []string
+		var hi []int
+		for i := range all {
+			if goOut[i] == "hang" {
+				hi = append(hi, i)
+				hl = append(hl, "vp8l "+hx(all[i].payload), "vp8linfo "+hx(all[i].payload))
+			}
+		}
+		lo, err := RunDriver(hl)
+		if err != nil {
+			return err
+		}
+		for k, i := range hi {
+			c := all[i]
+			in := map[string]any{"op": "vp8l", "hex": hx(c.payload), "kind": c.kind, "config": c.desc}
+			v.add(hangFinding("DecodeVP8L", "lossless.DecodeVP8L ("+c.kind+" "+c.desc+"; "+lo[2*k+1]+")", in))
+			if strings.HasPrefix(lo[2*k], "ok ") {
+				v.add(Finding{Kind: "property", Property: "C03", Signature: "vp8l-accept:go-hang-spec-ok",
+					Detail: fmt.Sprintf("the specification decodes the stream (%s), lossless.DecodeVP8L does not return (%s %s): spec=%q", lo[2*k+1], c.kind, c.desc, lo[2*k]), Input: in})
+			}
+			rep.Eval(true, c.payload)
+			rep.Count("outcome:go-hang")
+		}
+		v.stopped = true
+		rep.Notes = append(rep.Notes, "suite stopped early: a Go decode call did not return (see the hang finding)")
+		return nil
+	}
 	t0 = time.Now()
 	lines := make([]string, len(all))
 	for i, c := range all {
@@ -411,6 +443,9 @@ func (v *vp8lRun) batch(all []vp8lCase, infoAll bool) error {
 				what = c.desc[k:]
 			}
 			rep.Count("syn:" + what + ":" + strings.SplitN(l, " ", 2)[0])
+			if strings.Contains(c.desc, " narrow=") {
+				rep.Count("syn:narrow:" + strings.SplitN(l, " ", 2)[0])
+			}
 			rep.Count(fmt.Sprintf("syn:transforms=%d", strings.Count(strings.SplitN(c.desc, " ", 2)[0], "+")+b2i(!strings.HasPrefix(c.desc, "none"))))
 		}
 		if c.kind == "enc" {
@@ -527,6 +562,27 @@ func b2i(b bool) int {
 func suiteVP8L(rep *Report) error {
 	rep.Rule = "streams: (a) webp.Encode Lossless outputs over colour class x alpha class x size (1x1, 1xN, Nx1, sides around 2^k, 320x320) x Quality {0,10,25,50,75,90,100} x Method 0..6 x Exact, VP8L payload extracted; (b) testdata lossless files and corpus/vp8l/*.hex; (c) streams of a random VP8L writer (any transform subset/order, tile bits 2..9, mode nibble 0..15, palettes 1..256, cache bits 1..11, meta codes, simple/single/normal codes, max_symbol, repeat codes; one third with a deliberate defect); (d) mutations of (a)-(c): bit flips, byte sets, truncations, fills, appended bytes. Each stream is decoded by lossless.DecodeVP8L and by the Lean spec decoder Webp.Spec.VP8L.decode; the lines (ok w h alpha pixel-digests | err header|bitstream) are compared; for (a) both decoders' pixels are also compared with the source image (alpha-0 pixels normalised unless Exact). non-trivial = the spec decoder got past the 5-byte header; distinct = FNV of the payload"
 	v := &vp8lRun{rep: rep, mins: map[string]vp8lMin{}, kept: map[string][]Finding{}, totals: map[string]int{}, phase: map[string]float64{}}
+	finish := func() error {
+		mf := map[string]string{}
+		for k, m := range v.mins {
+			mf[k] = fmt.Sprintf("%s (%d px)", m.desc, m.area)
+		}
+		rep.Extra["min_failing_config"] = mf
+		rep.Extra["finding_totals"] = v.totals
+		rep.Extra["phase_s"] = v.phase
+		var keys []string
+		for k := range v.kept {
+			keys = append(keys, k)
+		}
+		sort.Strings(keys)
+		for _, k := range keys {
+			for _, f := range v.kept[k] {
+				rep.Add(f)
+			}
+		}
+		sortFindings(rep)
+		return nil
+	}
 
 	// (a) encoder outputs
 	t0 := time.Now()
@@ -590,6 +646,9 @@ func suiteVP8L(rep *Report) error {
 	if err := v.batch(valid, true); err != nil {
 		return err
 	}
+	if v.stopped {
+		return finish()
+	}
 	// mutation sources: the small valid streams (sources are kept without their images)
 	var pool []vp8lCase
 	for _, c := range valid {
@@ -609,7 +668,14 @@ func suiteVP8L(rep *Report) error {
 		n := mini(batchSize, nSyn-off)
 		syn := make([]vp8lCase, n)
 		parallelDo(n, func(i int) {
-			b, d := SynVP8L(NewRNG(rep.Seed, 0x50000000+uint64(off+i)))
+			r := NewRNG(rep.Seed, 0x50000000+uint64(off+i))
+			var b []byte
+			var d string
+			if (off+i)%10 == 9 { // every tenth: the narrow-picture variant (width 1..8, short distance codes)
+				b, d = SynVP8LNarrow(r)
+			} else {
+				b, d = SynVP8L(r)
+			}
 			syn[i] = vp8lCase{payload: b, kind: "syn", desc: d}
 		})
 		if off == 0 {
@@ -621,6 +687,9 @@ func suiteVP8L(rep *Report) error {
 		}
 		if err := v.batch(syn, false); err != nil {
 			return err
+		}
+		if v.stopped {
+			return finish()
 		}
 	}
 	for off := 0; off < nMut && len(pool) > 0; off += batchSize {
@@ -635,27 +704,12 @@ func suiteVP8L(rep *Report) error {
 		if err := v.batch(mut, false); err != nil {
 			return err
 		}
-	}
-
-	mf := map[string]string{}
-	for k, m := range v.mins {
-		mf[k] = fmt.Sprintf("%s (%d px)", m.desc, m.area)
-	}
-	rep.Extra["min_failing_config"] = mf
-	rep.Extra["finding_totals"] = v.totals
-	rep.Extra["phase_s"] = v.phase
-	var keys []string
-	for k := range v.kept {
-		keys = append(keys, k)
-	}
-	sort.Strings(keys)
-	for _, k := range keys {
-		for _, f := range v.kept[k] {
-			rep.Add(f)
+		if v.stopped {
+			return finish()
 		}
 	}
-	sortFindings(rep)
-	return nil
+
+	return finish()
 }
 
 func replayVP8L(in map[string]any) int {
